@@ -247,6 +247,18 @@ func contractServes(ct *Contract, want map[string]bool) bool {
 			}
 		}
 	}
+	for _, a := range ct.AssertAfter {
+		if check(a.Cl.Props) {
+			return true
+		}
+	}
+	for _, cs := range ct.Decreases {
+		for _, c := range cs {
+			if check(c.Props) {
+				return true
+			}
+		}
+	}
 	return false
 }
 
